@@ -278,7 +278,7 @@ func CheckC06(e *Env) (int, error) {
 	var trouble error
 	distinct, coldCases, coldProcs, maxSeededDistinct := 0, 0, 0, map[int]int{}
 	seamUnavailable := 0
-	postPanicHang := 0
+	postPanicHang, devicePanicKilled := 0, 0
 	var samples []interface{}
 	var od OrderedDigest
 	e.Logf("C06: %d jobs", len(jobs))
@@ -292,6 +292,10 @@ func CheckC06(e *Env) (int, error) {
 		p, err := e.RunJSON(bin, "c06", j, &r, 20*time.Minute)
 		mu.Lock()
 		defer mu.Unlock()
+		if err == nil && j.Kind == "panics" && p.DiedOfDevicePanic() {
+			devicePanicKilled++ // the device's panic surfaced in a goroutine of the library's own: the process is gone, fail-closed
+			return
+		}
 		if err == nil && j.Kind == "panics" && p.Exit == 6 {
 			postPanicHang++ // the call after a source panic never returned (e.g. a lock the panic left held): not judged
 			return
@@ -371,7 +375,8 @@ func CheckC06(e *Env) (int, error) {
 		"cold_start_processes":        coldProcs,
 		"cold_start_cases":            coldCases,
 		"cold_start_seam_unavailable": seamUnavailable,
-		"calls_after_a_source_panic_that_never_returned_not_judged": postPanicHang,
+		"calls_after_a_source_panic_that_never_returned_not_judged":  postPanicHang,
+		"processes_ended_by_the_device_panic_in_a_library_goroutine": devicePanicKilled,
 		"sim_steps_total":       tot.Reads,
 		"sim_time_note":         "the unchanged tree reads no clock, so simulated time is counted in device reads; a tree that imports \"time\" gets Now/Since/Until from the clock seam, which the simulator moves forward in jumps (reads of the device that take 0.15 s to 1 h of simulated time)",
 		"clock_seam_files":      e.ClockFiles("go"),
